@@ -78,6 +78,22 @@ pub fn small_writes_nodelay() -> Scenario {
     s
 }
 
+/// a trickle: 2 bytes every 30 ms without Nagle (each arrival falls inside the receiver's delayed-ACK
+/// interval of the previous one), then a flush
+pub fn paced_tiny_writes() -> Scenario {
+    let mut w = vec![];
+    for _ in 0..12 {
+        w.push(WOp::Write(2));
+        w.push(WOp::PauseMs(30));
+    }
+    w.push(WOp::Flush);
+    w.push(WOp::Shutdown);
+    let mut s = base("paced-tiny-writes", app(w, vec![ROp::ReadToEof(64)]), app(vec![], vec![ROp::ReadToEof(64)]));
+    s.a.nagle = false;
+    s.b.nagle = false;
+    s
+}
+
 /// FIN right behind the data: both halves dropped immediately after the write
 pub fn fin_behind_data() -> Scenario {
     base(
